@@ -100,9 +100,12 @@ def _mpi_enc(ex, st, v):
     return cat(be(blv, 2), E.BE(v, (blv + 7) / 8))
 
 
-def encrypt_keyblob(clsname):
+def encrypt_keyblob(clsname, reprotect=False):
+    """reprotect: the material already carries string-to-key parameters - ANY that can be read from a packet (a key protected by another
+    implementation with a simple or salted specifier, another cipher, hash and count; it was unlocked and is protected anew). What is written
+    is the same as for a first protection: iterated and salted, fresh salt and IV, the requested algorithms, the tuned count."""
     cls = 'pgpy.packet.fields.' + clsname
-    label = 'C06/fields.%s.encrypt_keyblob' % clsname
+    label = 'C06/fields.%s.encrypt_keyblob%s' % (clsname, '[protected before, by any implementation]' if reprotect else '')
 
     def gen(repo):
         r = scn.Run(repo, cls, 'encrypt_keyblob', label)
@@ -116,6 +119,14 @@ def encrypt_keyblob(clsname):
         for f, v in (('usage', E.VInt(0)), ('_encalg', E.VInt(0, enum='pgpy.constants.SymmetricKeyAlgorithm')), ('_specifier', E.VInt(0, enum='pgpy.constants.String2KeyType')),
                      ('iv', E.VNone()), ('_halg', E.VInt(0, enum='pgpy.constants.HashAlgorithm')), ('salt', E.VNone()), ('_count', E.VInt(0))):
             r.set('s2k', f, v)
+        if reprotect:
+            U0, SP0, EA0, HA0, C0 = z3.Ints('old_usage old_specifier old_cipher old_hash old_coded_count')
+            st.pc += [z3.Or(U0 == 254, U0 == 255), z3.Or(SP0 == 0, SP0 == 1, SP0 == 3), z3.Or(*[EA0 == x for x in (2, 3, 7, 8, 9)]),
+                      z3.Or(*[HA0 == x for x in (2, 8, 10)]), C0 >= 0, C0 <= 255]
+            for f, v in (('usage', E.VInt(U0)), ('_encalg', E.VInt(EA0, enum='pgpy.constants.SymmetricKeyAlgorithm')),
+                         ('_specifier', E.VInt(SP0, enum='pgpy.constants.String2KeyType')), ('iv', ex.new_buf(st, z3.Const('OLD_IV', B))),
+                         ('_halg', E.VInt(HA0, enum='pgpy.constants.HashAlgorithm')), ('salt', ex.new_buf(st, z3.Const('OLD_SALT', B))), ('_count', E.VInt(C0))):
+                r.set('s2k', f, v)
         r.set('km', 'encbytes', ex.new_buf(st, z3.Empty(B)))
         SESSIONKEY = z3.Const('S2K_DERIVED_KEY', B)
         TC = z3.Int('tuned_count')
@@ -332,7 +343,7 @@ def clear():
 
 def scenarios():
     out = [unlock('protected'), unlock('public'), unlock('unprotected'), clear()]
-    out += [encrypt_keyblob(c) for c in ('RSAPriv', 'DSAPriv', 'EdDSAPriv')]
+    out += [encrypt_keyblob(c) for c in ('RSAPriv', 'DSAPriv', 'EdDSAPriv')] + [encrypt_keyblob('RSAPriv', True), encrypt_keyblob('EdDSAPriv', True)]
     out += [decrypt_keyblob_base(u) for u in (254, 255)]
     out += [decrypt_keyblob_alg(c) for c in ('RSAPriv', 'DSAPriv', 'ElGPriv', 'ECDSAPriv', 'EdDSAPriv', 'ECDHPriv')]
     return out
